@@ -57,6 +57,9 @@ CLAIMED = {
    text="Decides the single-station structural clauses: every PHY transmission happens in an allowed typestate (token / GAP request in ClaimToken|PassToken, status reply in ListenToken|ActiveIdle with a recorded request addressed to this station, application telegram in UseToken; claim only after the silence time-out); every transmission is preceded in the same poll by the 33-bit synchronisation pause, the dispatch by the ongoing-transmission check and the RX-activity update; no second transmission per poll; the byte count of each transmission reaches mark_tx = now + bits_to_time(11*bytes); time-out stagger depends on address and slot time; single bit/time conversion. Collision freedom between several independently scheduled stations and µs timing are NOT decided (schedules of independent processes).",
    note="Trusted: " + TB + "; rules/spec_tables.json; callback contracts of the provided PHY helpers.", ref="§4-C01"),
 
+ "C19": dict(level="other", technique="static analysis: grammar-shape typestate (pest grammar dumped by pest_meta -> child-sequence automata -> abstract interpretation of rustc MIR), R-PANIC inventory with path-sensitive Option guards and a provenance rule, per-path counters for the legacy-commit overwrite rule, keyword/field table extraction, case-discipline and long-line-marker checks",
+   text="Decides `never panics` for the hand-written parser: every panic source reachable from parse()/parse_with_warnings() (panic!/unreachable!/assert!, unwrap/expect, Assert terminators, integer +, from_str_radix) is shown unreachable or guarded for every pair tree the grammar can produce, re-derived from gsd.pest and the MIR on each run. Of `reproduces what the file says` it decides structural necessary conditions only: extended prm data is never overwritten by the legacy commit, <rate>_supp / MaxTsdr_<rate> keywords reach the matching flag / field, keywords recognised in code are compared case-insensitively, long-line markers are removed from string literals for LF and CR LF (when the cleaning code has the recognised replace-chain shape). Field-by-field equality with the file text is not decided.",
+   note="Trusted: " + TB + "; pest_meta parser/optimizer (engines/pestshape); conformance of the pest runtime and pest_derive output to the grammar (generated code checked free of panic sites); std functions outside analysis/panics.py:MAY_PANIC_EXTERN do not panic.", ref="§4-C19"),
  "C20": dict(level="other", technique="static analysis: sibling-arm table extraction (conversion target, width, endianness), dependency check of bit-field stores on the previous byte, must-guard and per-path/per-iteration counters for check-before-write over the rustc MIR of gsd-parser",
    text="Decides the per-type encoding table (signed types through their signed type, big-endian, widths, size()), the read-modify-write dependency and range guards of bit fields, that nothing is written on a path returning an error, that the declared constraint is checked before the write, that names/texts are resolved before any write and that every default is written unconditionally. One recorded known finding (BitArea overwrites the whole byte; its repair would change a pinned snapshot). The overlay over whole layouts as a value relation is not decided.",
    note="Trusted: " + TB + ".", ref="§4-C20"),
@@ -79,7 +82,7 @@ for p in props:
             "thorough_cmd": "./check %s --tier thorough" % pid,
             "evidence_file": "/verif/evidence/%s.json" % pid,
             "replay_cmd_template": "cat {path}",
-            "engine": "mirfacts+analysis",
+            "engine": "mirfacts+pestshape+analysis" if pid == "C19" else "mirfacts+analysis",
             "level_claimed": {"category": c["level"], "text": c["text"], "design_ref": "DESIGN.md " + c["ref"]},
             "level_note": c["note"],
             "technique": c["technique"],
@@ -93,11 +96,12 @@ for p in props:
 
 m = {
  "version": 1,
- "setup_cmd": "cd /verif/engines/mirfacts && CARGO_NET_OFFLINE=true cargo build --offline",
+ "setup_cmd": "cd /verif/engines/mirfacts && CARGO_NET_OFFLINE=true cargo build --offline && cd /verif/engines/pestshape && CARGO_NET_OFFLINE=true cargo build --offline",
  "hooks": {"guard": "profirust_verif", "enable": "none needed – the analyses read compiler facts of the unmodified sources (guard name reserved, unused)",
            "baseline_off_cmd": "cd /repo && cargo test --workspace --no-fail-fast --offline", "source_commits": [], "add_only": True},
  "engines": [
    {"name": "mirfacts", "path": "engines/mirfacts", "serves_properties": sorted(CLAIMED), "kind_free_text": "rustc_private driver (RUSTC_WORKSPACE_WRAPPER under cargo +nightly check) dumping resolved MIR facts of /repo's current tree as JSON"},
+   {"name": "pestshape", "path": "engines/pestshape", "serves_properties": ["C19"], "kind_free_text": "pest_meta based dumper of /repo's gsd.pest (rule kinds and optimized expression trees) as JSON"},
    {"name": "analysis", "path": "analysis", "serves_properties": sorted(CLAIMED), "kind_free_text": "python3 stdlib static analyses over the facts: CFG/dominators, symbolic terms, path-sensitive must-guard dataflow, who-writes, table extraction, typestate and numeric abstract interpretation"},
  ],
  "checks": checks,
